@@ -977,6 +977,7 @@ def _cut_or_rounded(text, x, prec):
         if abs(t - X) <= u / 2 and abs(t) > abs(X):
             return "exp-rounded-out"
         return "cut" if abs(t - X) <= u / 2 else None
+    X = Fraction(repr(float(x)))          # the digits of the shortest repr are what is cut off
     return "cut" if (abs(t) <= abs(X) and abs(X) - abs(t) < u and (t == 0 or (t > 0) == (X > 0))) else None
 
 
@@ -1085,8 +1086,8 @@ def run_doc(ctx, spec, mutants=8, correspond=True):
             try:
                 with_timeout(20, lambda: CommonRoadFileReader(path).open())
                 key = f"C03/reader/lanelet_assignment/{_reader_function(e)}"
-            except Exception:  # noqa
-                pass
+            except Exception as e2:  # noqa  -- open() rejects the file as well: that failure is the finding
+                e, entry, key = e2, "open()", f"C03/reader/raises-{err_class(e2)}"
         if isinstance(e, AssertionError) and how != 2 and exponent_bound_overlong(root, sc, pps, eff_prec):
             key = "C03/reader/raises-assert/orientation-interval-exponent-bound-rounded-outward"
         ctx.fail(key, f"CommonRoadFileReader ({entry}) rejects the written file: {type(e).__name__}: {str(e)[:200]}", case)
